@@ -269,6 +269,19 @@ func OpenDB(path string, memKB int) (*DB, *Failure) {
 	return d, nil
 }
 
+// OpenDBKeepSpawns is OpenDB for scenarios that need the library's own goroutines (the RequestManager
+// loop): they stay queued and are adopted by the next controlled execution.
+func OpenDBKeepSpawns(path string, memKB int) (*DB, *Failure) {
+	d := &DB{Path: path, MemKB: memKB}
+	vrand.Reset()
+	vsched.DropPendingSpawns()
+	f := guard(func() { d.SDB = samehada.NewSamehadaDB(path, memKB) })
+	if f != nil {
+		return nil, f
+	}
+	return d, nil
+}
+
 func (d *DB) inst() *samehada.SamehadaInstance { return d.SDB.GetSamehadaInstance() }
 func (d *DB) Cat() *catalog.Catalog            { return d.SDB.GetCatalogForTesting() }
 func (d *DB) BPM() *buffer.BufferPoolManager   { return d.inst().GetBufferPoolManager() }
